@@ -6,6 +6,7 @@ pub mod c05;
 pub mod c09;
 pub mod c10;
 pub mod c11;
+pub mod c12;
 pub mod c15;
 
 use crate::report::Report;
@@ -45,6 +46,7 @@ pub fn run(id: &str, report: &mut Report, replay: Option<&str>) {
         "C09" => c09::run(report, replay_val.as_ref()),
         "C10" => c10::run(report, replay_val.as_ref()),
         "C11" => c11::run(report, replay_val.as_ref()),
+        "C12" => c12::run(report, replay_val.as_ref()),
         "C15" => c15::run(report, replay_val.as_ref()),
         _ => {
             eprintln!("unknown property {}", id);
